@@ -102,6 +102,7 @@ func (s *ServerKeyStore) ListKeys() ([]keystore.KeyDescription, error) {
 	}
 
 	// we need to open each keyring to get the current key idx
+	listed := descriptions[:0]
 	for i := 0; i < len(descriptions); i++ {
 		ring, err := s.OpenKeyRing(descriptions[i].KeyID)
 		if err != nil {
@@ -110,6 +111,12 @@ func (s *ServerKeyStore) ListKeys() ([]keystore.KeyDescription, error) {
 		}
 
 		currentKeyID, err := ring.CurrentKey()
+		if err == api.ErrNoCurrentKey {
+			// A key ring without a current key (freshly created, or left by an interrupted first key
+			// generation) has no current key to list; it must not make the whole listing fail.
+			log.WithField("KeyID", descriptions[i].KeyID).Debug("Key ring has no current key, skipping")
+			continue
+		}
 		if err != nil {
 			log.WithError(err).WithField("KeyID", descriptions[i].KeyID).Debug("Failed to get CurrentKeyID")
 			return nil, err
@@ -125,9 +132,10 @@ func (s *ServerKeyStore) ListKeys() ([]keystore.KeyDescription, error) {
 		descriptions[i].Index = 1
 		descriptions[i].CreationTime = &creationTime
 		descriptions[i].State = keystore.StateCurrent
+		listed = append(listed, descriptions[i])
 	}
 
-	return descriptions, nil
+	return listed, nil
 }
 
 // CacheOnStart v2 keystore doesnt support keys caching
